@@ -425,7 +425,7 @@ def main(ctx, args):
 
     def occurs_job(depth, shard, nshards):
         """P1 tie of Model/Occurs.lean: the real type checker is made to unify ?0 with every small type t; the model's
-        `occ` (with the `&&` quirk) predicts whether the occurs check fires (a `Circular …` diagnostic) or the variable is bound"""
+        `occ` (with the operator of the function-type arm as extracted from unification.rs) predicts whether the occurs check fires (a `Circular …` diagnostic) or the variable is bound"""
         q = driver("C04", ["occurs", str(depth)])
         rows = [l.split("\t") for l in q.stdout.split("\n") if l][shard::nshards]
         p = run_sup(["lines"], stdin_data="".join(r[0] + "\n" for r in rows))
@@ -567,7 +567,7 @@ def main(ctx, args):
                       dict(span_stats["disagree"][0], correspondence="Model/ParserLoops.lean errorSpan vs parser/mod.rs"), found_input=False)
     if occ_stats["disagree"]:
         d = occ_stats["disagree"][0]
-        ctx.violation(f"occurs check: model (Model/Occurs.lean, `&&` quirk) says {d['model']}, the real type checker {d['impl']} on {d['src']!r}",
+        ctx.violation(f"occurs check: model (Model/Occurs.lean, function-type arm as written) says {d['model']}, the real type checker {d['impl']} on {d['src']!r}",
                       dict(d, correspondence="Model/Occurs.lean occ vs typing/unification.rs occur_check", cases=len(occ_stats["disagree"])),
                       found_input=False)
     if not proved and not new:
